@@ -20,6 +20,8 @@ where
     loop {
         let did_change = apply_rewrites(egraph, &rws);
 
+        // the hook may change the e-graph too: the rules have to be tried on its result before the run can count as saturated.
+        let before_hook = egraph.progress();
         match hook(egraph) {
             Ok(_) => (),
             Err(msg) => {
@@ -27,6 +29,7 @@ where
                 break;
             }
         }
+        let did_change = did_change || before_hook != egraph.progress();
 
         if !did_change {
             stop_reason = StopReason::Saturated;
